@@ -1393,11 +1393,12 @@ void Analyser::AnalyserImpl::analyseEquationAst(const AnalyserEquationAstPtr &as
     if ((ast->mPimpl->mType == AnalyserEquationAst::Type::CN)
         && (astParent->mPimpl->mType == AnalyserEquationAst::Type::DEGREE)
         && (astGrandparent->mPimpl->mType == AnalyserEquationAst::Type::BVAR)) {
-        double value;
+        // Note: a value that cannot be converted (e.g., 1e999) is not a first order either.
 
-        convertToDouble(ast->mPimpl->mValue, value);
+        double value = 0.0;
 
-        if (!areEqual(value, 1.0)) {
+        if (!convertToDouble(ast->mPimpl->mValue, value)
+            || !areEqual(value, 1.0)) {
             auto variable = astGreatGrandparent->mPimpl->mOwnedRightChild->variable();
             auto issue = Issue::IssueImpl::create();
 
